@@ -107,7 +107,7 @@ def min_cost_flow[Node](
     """Route demand units from source to sink at minimum total cost."""
     capacity = defaultdict(lambda: defaultdict(int))
     cost = defaultdict(lambda: defaultdict(lambda: float("inf")))
-    nodes = set()
+    nodes = {source, sink}  # terminals without arcs are still nodes (dist[sink] must exist)
 
     for u in graph:
         nodes.add(u)
